@@ -109,6 +109,11 @@ func (u *Unit) exec(fc *frameCtx, st *State, pc *Term, insn ssa.Instruction) {
 		ref := u.allocObj(st)
 		et := t.Type().Underlying().(*types.Pointer).Elem()
 		u.store(st, ref, et, u.zeroSV(et))
+		if at, ok := et.Underlying().(*types.Array); ok {
+			u.assume(pc, c.Eq(u.rootType(c.Root(ref)), u.arrTypeID(at.Elem())))
+		} else {
+			u.assume(pc, c.Eq(u.rootType(c.Root(ref)), u.typeID(et)))
+		}
 		fc.vals[t] = leaf(ref)
 	case *ssa.FieldAddr:
 		x := u.val(fc, t.X).T
@@ -201,6 +206,7 @@ func (u *Unit) exec(fc *frameCtx, st *State, pc *Term, insn ssa.Instruction) {
 		dk := "MD:" + ks.Name
 		dom := u.heapGet(st, dk, ArraySort(SRef, ArraySort(ks, SBool)))
 		st.heap[dk] = c.Store(dom, m, c.ConstArray(ArraySort(ks, SBool), c.False()))
+		st.heap["ML:"+ks.Name] = c.Store(u.mapLenArr(st, ks), m, c.Int(0))
 		fc.vals[t] = leaf(m)
 	case *ssa.MakeSlice:
 		ln := u.val(fc, t.Len).T
@@ -209,6 +215,7 @@ func (u *Unit) exec(fc *frameCtx, st *State, pc *Term, insn ssa.Instruction) {
 			u.safety("index", "makeslice", pc, c.And(c.Le(c.Int(0), ln), c.Le(ln, cp)), "makeslice: len out of range", t.Pos())
 		}
 		arr := u.allocObj(st)
+		u.assume(pc, c.Eq(u.rootType(c.Root(arr)), u.arrTypeID(t.Type().Underlying().(*types.Slice).Elem())))
 		sl := c.MkSlice(arr, c.Int(0), ln, cp)
 		u.zeroElems(st, pc, sl, t.Type().Underlying().(*types.Slice).Elem(), cp)
 		fc.vals[t] = leaf(sl)
